@@ -272,7 +272,7 @@ def parse_rvalue(s):
     m = re.match(r"^([\w:<>, &'\[\]\(\)]+?)\((.*)\)$", s)
     if m:
         return ("variant", m.group(1), [parse_operand(p) for p in split_top(m.group(2))])
-    if re.fullmatch(r"[\w:<>, &'\[\]\(\);]+", s) and "::" in s:
+    if re.fullmatch(r"[\w:<>, &'\[\]\(\);]+", s) and ("::" in s or re.fullmatch(r"[A-Z]\w*", s)):
         return ("variant", s, [])
     raise Unsupported(f"rvalue: {s}")
 
